@@ -294,7 +294,7 @@ V2_Resolutions(m, t) == \A i \in DOMAIN t.res : LET r == t.res[i] IN
               /\ ContractOK2(r.ren.nc) /\ AuthOK(r.ren.nc.auth)
               /\ r.ren.nc.rk = c.rk /\ r.ren.nc.hk = c.hk
               /\ AuthOK(r.ren.auth)
-         [] r.kind = "proof"  -> child >= c.ph + 1 /\ (r.pf = "ok")   \* the block at ProofHeight must be an ancestor
+         [] r.kind = "proof"  -> child >= c.ph + 1 /\ (c.size = 0 \/ r.pf = "ok")   \* the block at ProofHeight must be an ancestor; an empty file has no leaf to prove
          [] r.kind = "expire" -> child > c.eh
 V2_Foundation(m, t) ==
   \* (authority is judged against the parent state: a second update in the same block is still authorised by the keys
@@ -425,7 +425,7 @@ T_Rev2(m) == IF "rev2" \notin Templates \/ 2 \notin Vers THEN {} ELSE
 T_Res2(m) == IF "res2" \notin Templates \/ 2 \notin Vers THEN {} ELSE
   {[EmptyTx(2) EXCEPT !.res = <<[cid |-> q[1], kind |-> q[2], pf |-> "ok", ren |-> NoRen]>>, !.tag = q[2],
                        !.slack = IF q[2] = "proof" THEN child - (m.c2[q[1]].ph + 1) ELSE child - (m.c2[q[1]].eh + 1)] :
-     q \in {y \in Live2(m) \X {"proof", "expire"} : y[2] = "expire" \/ m.c2[y[1]].size > 0}}   \* (nothing to prove for an empty file)
+     q \in Live2(m) \X {"proof", "expire"}}   \* (an empty file with the zero root is "proved" by any leaf and an empty proof)
 \* renewal: roll a quarter of each side over, fund the rest of the new contract from one input
 RenewTx(m, cid, id, nr) ==
   LET c == m.c2[cid]  rr == c.r \div 4  hr == c.h \div 4
@@ -554,6 +554,16 @@ BadCand(m) ==
 \cup (IF "finalrn" \in Defects /\ 1 \in Vers /\ m.nv2 = 0 THEN
         {[EmptyTx(1) EXCEPT !.rev = <<[cid |-> q[1], c |-> [m.c1[q[1]] EXCEPT !.rn = q[2]], auth |-> "ok"]>>, !.tag = "rev1!stalern"] :
             q \in {y \in Live1(m) \X {0, 1, MaxRN - 1, MaxRN} : m.c1[y[1]].rn = MaxRN}} ELSE {})
+\* a v2 contract formed earlier in this block has no place in the accumulator yet: it can be neither revised nor resolved
+\cup (IF "inblock" \in Defects /\ 2 \in Vers THEN
+        {[EmptyTx(2) EXCEPT !.rev = <<[cid |-> cid, c |-> [m.c2[cid] EXCEPT !.rn = @ + 1], auth |-> "ok"]>>, !.tag = "rev2!inblock"] :
+            cid \in {x \in DOMAIN m.c2 : x \notin DOMAIN c2 /\ x \notin m.spends}}
+        \cup {[EmptyTx(2) EXCEPT !.res = <<[cid |-> cid, kind |-> "expire", pf |-> "ok", ren |-> NoRen]>>, !.tag = "expire!inblock"] :
+            cid \in {x \in DOMAIN m.c2 : x \notin DOMAIN c2 /\ x \notin m.spends}} ELSE {})
+\* from the ephemeral-output height on a siafund output cannot be spent in the block that creates it
+\cup (IF "inblock" \in Defects /\ 2 \in Vers /\ child >= EphH THEN
+        {[SFTx(m, 2, q[1], q[2], q[3]) EXCEPT !.tag = "sf!ephemeral"] :
+            q \in {y \in LiveSF(m) \X SFSplits \X Addrs : y[1] \in m.created}} ELSE {})
 \cup (IF "early" \in Defects /\ 2 \in Vers THEN
         {[EmptyTx(2) EXCEPT !.res = <<[cid |-> q[1], kind |-> q[2], pf |-> "ok", ren |-> NoRen]>>, !.tag = q[2] \o "!early"] :
             q \in Live2(m) \X {"proof", "expire"}} ELSE {})
